@@ -438,6 +438,9 @@ func (e *Exec) isNilValue(v Value) bool {
 func (e *Exec) strEq(a, b *StrV) *Term {
 	tb := e.tb
 	if a.Abs != nil || b.Abs != nil {
+		if a.Abs != nil && b.Abs != nil && a.Abs.Kind == "fmtint" && b.Abs.Kind == "fmtint" && a.Abs.Layout == b.Abs.Layout && a.Abs.T.S == b.Abs.T.S {
+			return tb.Eq(a.Abs.T, b.Abs.T)
+		}
 		if a.Abs != nil && b.Abs != nil && a.Abs.Kind == b.Abs.Kind && a.Abs.Layout == b.Abs.Layout {
 			if g := layoutGranularity(a.Abs.Layout); g > 0 {
 				return tb.Eq(e.floorDiv(a.Abs.T, g), e.floorDiv(b.Abs.T, g))
